@@ -26,7 +26,8 @@ RULE_TEXT = ("C03-V sibling agreement of the conversion impls in value.rs, arm b
              " C03-PR: the contracts of the parser combinators the skeleton builds on are read from their bodies - satisfy (accept first byte iff pred / soft error / Incomplete on empty), take_while (never fails; longest prefix, position() form or counting-loop form), optional (never fails; Some(value) or input untouched), tag(b) = satisfy(== b). C03-C12I: the Incomplete discipline of the data recognisers (rule C12-I)."
              " C03-K: the buffer discipline of process (rules K1-K7 of C07) - the bytes of a message reach the parser as sent."
              " C03-C06R: every parse-error path of run reports once and resumes behind the message terminator, every execution-error path reports execute's error once (rule C06-R) - exactly one error per faulty unit."
-             " C03-G also: a numeric recogniser rejects (other than Incomplete) only on a path where a sub-parser or fallible conversion failed.")
+             " C03-G also: a numeric recogniser rejects (other than Incomplete) only on a path where a sub-parser or fallible conversion failed."
+             " C03-C09Q: every reported error is stored in the queue (push rule of C09).")
 
 V = "microscpi::value::Value::"
 E = "microscpi::error::Error::"
